@@ -60,7 +60,7 @@ mod verif_round {
     // Every instrumented point calls log(kind, id); the rules of C01 / C02 are checked right
     // there against a small per-thread state (no event array, no loops), and the totals at the end.
     pub const GEN: u8 = 1; pub const COUNT: u8 = 2; pub const CALL: u8 = 3; pub const DROP_OUT: u8 = 4; pub const DROP_IN: u8 = 5;
-    pub const TS_START: u8 = 6; pub const TS_END: u8 = 7; pub const BARRIER: u8 = 8; pub const FENCE_FULL: u8 = 9; pub const FENCE_COMPILER: u8 = 10;
+    pub const TS_START: u8 = 6; pub const TS_END: u8 = 7; pub const BARRIER: u8 = 8; pub const FENCE_FULL: u8 = 9; pub const FENCE_COMPILER: u8 = 10; pub const CLEAR: u8 = 11;
     pub const ZST: u8 = 255;     // a zero-sized value has no identity
     #[derive(Clone, Copy)]
     struct Mon {
@@ -69,19 +69,22 @@ mod verif_round {
         want_after: u8,          // fence expected right after a timestamp read (0 = none)
         gens: u32, counts: u32, calls: u32, drop_out: u32, drop_in: u32,
         barriers_before: u8, barriers_after: u8, starts: u8, ends: u8,
+        dirty: bool,             // untimed work (generation, counting, tally clear) since this thread last met the others
+        cleared: bool,           // allocation tally cleared since the sample began
     }
     const MON0: Mon = Mon { phase: 0, last: 0, want_after: 0, gens: 0, counts: 0, calls: 0, drop_out: 0, drop_in: 0,
-                            barriers_before: 0, barriers_after: 0, starts: 0, ends: 0 };
+                            barriers_before: 0, barriers_after: 0, starts: 0, ends: 0, dirty: false, cleared: false };
     static mut MON: [Mon; 2] = [MON0; 2];
     // per identity (id < 8): bit masks of what has happened to it, and the thread that generated it
     static mut M_GEN: u8 = 0; static mut M_COUNT: u8 = 0; static mut M_CALL: u8 = 0; static mut M_DOUT: u8 = 0; static mut M_DIN: u8 = 0;
     static mut OWNER: [u8; 8] = [255; 8];
     static mut OUT_DROP_TRACKED: bool = false;   // outputs carry the id of their input and have a destructor
     static mut THREADS_RUN: usize = 1;
-    // Kani's assert! also ASSUMES its condition afterwards, so a failed assertion of one property could mask the other's.
-    // Each run of a harness therefore watches ONE property, chosen nondeterministically at the first check.
-    static mut WATCH: u8 = 0;
-    fn watching(mask: u8) -> bool { unsafe { if WATCH == 0 { WATCH = if kani::any() { 1 } else { 2 }; } WATCH & mask != 0 } }
+    // Kani's assert! also ASSUMES its condition afterwards, so a failed assertion of one property could mask another's.
+    // A run of these harnesses therefore checks the assertions of ONE property only: the one whose check is running
+    // (1 = C01, 2 = C02, 4 = C08; set when the module text is generated).
+    const WATCH: u8 = @WATCH@;
+    fn watching(mask: u8) -> bool { WATCH & mask != 0 }
     static mut THREAD: u8 = 0;          // index of the task the sequential stand-in is running
     static mut NEXT_ID: u8 = 0;
     static mut SAMPLE_SIZE: u32 = 0;
@@ -100,10 +103,11 @@ mod verif_round {
             if m.want_after != 0 { if watching(2) { assert!(kind == m.want_after, "[C02] missing fence right after a timestamp read"); } m.want_after = 0; }
             if kind == GEN {
                 if watching(2) { assert!(m.phase == 0, "[C02] input generated after the start timestamp"); }
-                if watching(2) { assert!(m.barriers_before == 0, "[C02] input generated after the threads met for the start"); }
+                m.dirty = true;
                 m.gens += 1;
                 if bit != 0 { if watching(1) { assert!(M_GEN & bit == 0, "[C01] identity generated twice"); } M_GEN |= bit; OWNER[id as usize] = th as u8; }
             } else if kind == COUNT {
+                m.dirty = true;
                 if watching(2) { assert!(m.phase == 0, "[C02] input counted after the start timestamp"); }
                 m.counts += 1;
                 if bit != 0 {
@@ -123,7 +127,7 @@ mod verif_round {
                 }
             } else if kind == DROP_OUT {
                 if watching(3) { assert!(m.phase == 2, "[C01][C02] output dropped before the end timestamp of its sample"); }
-                if watching(2) { assert!(THREADS_RUN == 1 || m.barriers_after == 1, "[C02] output dropped before the threads met after the end timestamp"); }
+                if watching(4) { assert!(THREADS_RUN == 1 || m.barriers_after >= 1, "[C08] a thread started dropping outputs without meeting the others after its end timestamp"); }
                 m.drop_out += 1;
                 if bit != 0 {
                     if watching(1) { assert!(M_CALL & bit != 0 && M_DOUT & bit == 0, "[C01] an output dropped twice or before its call"); }
@@ -133,7 +137,7 @@ mod verif_round {
                 }
             } else if kind == DROP_IN {
                 if watching(3) { assert!(m.phase == 2, "[C01][C02] input dropped before the end timestamp of its sample"); }
-                if watching(2) { assert!(THREADS_RUN == 1 || m.barriers_after == 1, "[C02] input dropped before the threads met after the end timestamp"); }
+                if watching(4) { assert!(THREADS_RUN == 1 || m.barriers_after >= 1, "[C08] a thread started dropping inputs without meeting the others after its end timestamp"); }
                 m.drop_in += 1;
                 if bit != 0 {
                     if watching(1) { assert!(M_CALL & bit != 0 && M_DIN & bit == 0, "[C01] an input dropped twice or before its call"); }
@@ -141,7 +145,13 @@ mod verif_round {
                     if watching(1) { assert!(OWNER[id as usize] == th as u8, "[C01] an input was dropped on another thread"); }
                     M_DIN |= bit;
                 }
+            } else if kind == CLEAR {
+                if m.phase == 0 { m.dirty = true; m.cleared = true; }
             } else if kind == TS_START {
+                if THREADS_RUN > 1 {
+                    if watching(4) { assert!(m.cleared, "[C08] a thread took its start timestamp without having had its allocation tally cleared"); }
+                    if watching(4) { assert!(!m.dirty, "[C08] a thread took its start timestamp without meeting the others after generating its inputs and clearing its allocation tally"); }
+                }
                 if watching(2) { assert!(m.phase == 0 && m.last == FENCE_FULL, "[C02] full fence right before the start timestamp"); }
                 m.phase = 1; m.starts += 1; m.want_after = FENCE_COMPILER;
             } else if kind == TS_END {
@@ -149,7 +159,7 @@ mod verif_round {
                 m.phase = 2; m.ends += 1; m.want_after = FENCE_FULL;
             } else if kind == BARRIER {
                 if watching(2) { assert!(m.phase != 1, "[C02] barrier wait inside the timed section"); }
-                if m.phase == 0 { m.barriers_before += 1; } else { m.barriers_after += 1; }
+                if m.phase == 0 { m.barriers_before += 1; m.dirty = false; } else if m.phase == 2 { m.barriers_after += 1; }
             } else {
                 // fences: inside the timed section only the two that belong to the timestamp reads
             }
@@ -177,6 +187,7 @@ mod verif_round {
     fn stub_compiler_fence() { log(FENCE_COMPILER, 0); }
     fn stub_ts_start() -> TscTimestamp { log(TS_START, 0); unsafe { TSC += 10; TscTimestamp { value: TSC } } }
     fn stub_ts_end() -> TscTimestamp { log(TS_END, 0); unsafe { TSC += 10; TscTimestamp { value: TSC } } }
+    fn stub_tally_clear(this: &mut ThreadAllocInfo) { log(CLEAR, 0); *this = ThreadAllocInfo::new(); }
     fn stub_barrier_wait(_b: &std::sync::Barrier) -> std::sync::BarrierWaitResult { log(BARRIER, 0); unsafe { std::mem::zeroed() } }
 
     // ------------------------------------------------------------------ instrumented values
@@ -198,8 +209,9 @@ mod verif_round {
         if sh.counted { if watching(1) { assert!(m.counts == n, "[C01] each input shown once to the input counter"); } }
         if watching(1) { assert!(m.drop_out == if sh.out_drop { n } else { 0 }, "[C01] every output dropped exactly once"); }
         if watching(1) { assert!(m.drop_in == if sh.by_ref && sh.in_drop { n } else { 0 }, "[C01] every lent input dropped exactly once (by-value inputs never by divan)"); }
-        if t_run > 1 { if watching(2) { assert!(m.barriers_before == 2 && m.barriers_after == 1, "[C02] the threads meet twice before the start timestamp and once after the end timestamp"); } }
-        else { if watching(2) { assert!(m.barriers_before == 0 && m.barriers_after == 0, "[C02] no barrier on a single thread"); } }
+        // (how many times the threads meet is an implementation choice; what C08 states is checked at the start timestamp
+        //  and at the first drop, see log())
+        if t_run > 1 { if watching(4) { assert!(m.barriers_before >= 1 && m.barriers_after >= 1, "[C08] the threads meet before the start timestamp and after the end timestamp"); } }
         // allocation figures of the sample: exactly what the benchmarked calls did (16 bytes each);
         // generation (1 byte each) and drops (256 bytes each) are not reported
         let (ac, ab) = unsafe { SAMPLE_ALLOCS[th] };
@@ -241,6 +253,7 @@ mod verif_round {
             #[kani::stub(crate::time::timestamp::tsc::TscTimestamp::start, stub_ts_start)]
             #[kani::stub(crate::time::timestamp::tsc::TscTimestamp::end, stub_ts_end)]
             #[kani::stub(std::sync::Barrier::wait, stub_barrier_wait)]
+            #[kani::stub(crate::alloc::ThreadAllocInfo::clear, stub_tally_clear)]
             fn $name() {
                 let (sh, opts) = context_parts();
                 let n: u32 = $n; let t: usize = $t;
@@ -304,6 +317,11 @@ mod verif_round {
     // two threads one after the other: barrier waits, per-thread samples and allocation figures, thread affinity
     sample_harness!(refs_slots_two_threads, n = 1, threads = 2, shape = shape(true, true, true, true, true, true), count = |i: &InS| log(COUNT, i.0),
         via = verif_rec_refs, gen = gen_s, benched = |i: &mut InS| { log(CALL, i.0); tally(16); OutS(i.0) });
+    // the other two code paths of the recorder on two threads (C08: each path places its own synchronisation points)
+    sample_harness!(inputs_only_two_threads, n = 1, threads = 2, shape = shape(true, true, true, false, false, true), count = |i: &InS| log(COUNT, i.0),
+        via = verif_rec_refs, gen = gen_s, benched = |i: &mut InS| { log(CALL, i.0); tally(16); i.0 as u32 });
+    sample_harness!(zst_fast_path_two_threads, n = 1, threads = 2, shape = shape(true, false, true, false, true, true), count = |_i: &InZ| log(COUNT, ZST),
+        via = verif_rec_refs, gen = gen_z, benched = |_i: &mut InZ| { log(CALL, ZST); tally(16); OutZ });
 
     // ------------------------------------------------------------------ the six real entry points: which thread count reaches the loop
     macro_rules! entry_harness {
@@ -346,6 +364,8 @@ HARNESSES = [
     ("no_input_drop_out", "no inputs (bench / bench_local shape): unit input, sized Drop output; sample size 2", "bounded", "quick"),
     ("zst_fast_path", "zero-sized fast path, input and output zero-sized with destructors; sample size 2", "bounded", "thorough"),
     ("refs_slots_two_threads", "closures of bench_refs on 2 threads run one after the other; sample size 1", "bounded", "quick"),
+    ("inputs_only_two_threads", "inputs-only path on 2 threads run one after the other; sample size 1", "bounded", "c08"),
+    ("zst_fast_path_two_threads", "zero-sized fast path on 2 threads run one after the other; sample size 1", "bounded", "c08"),
     ("entry_bench", "Bencher::bench: thread count reaching the loop", "complete", "quick"),
     ("entry_bench_values", "Bencher::bench_values: thread count reaching the loop", "complete", "quick"),
     ("entry_bench_refs", "Bencher::bench_refs: thread count reaching the loop", "complete", "quick"),
@@ -359,19 +379,22 @@ def round_kani(S: Sources, errs: list, tag: str) -> KaniSpec:
     hook = guarded(lambda: hook_text(S), errs, None)
     if hook is None:
         return KaniSpec()
+    # C08 is about runs on more than one thread: only the two-thread harnesses; the two extra ones (tier "c08") run for C08 only
+    rows = [(n, c, k, ("quick" if t == "c08" else t)) for n, c, k, t in HARNESSES if (tag == "C08") == ("two_threads" in n) or (tag != "C08" and t != "c08" and "two_threads" in n)]
     hs = [KaniHarness(f"verif_round::{n}", k, bound=("one sample per thread, sample size as stated, threads run one after the other" if k == "bounded" else ""),
-                      covers=c, tier=t) for n, c, k, t in HARNESSES]
+                      covers=c, tier=t) for n, c, k, t in rows]
     for h in hs:
-        if h.name.endswith("zst_fast_path"):
+        if "zst_fast_path" in h.name:
             h.ignore = [(r"memset destination region writeable @ std::ptr::write_bytes::<",
                          "Kani models MaybeUninit::<T>::zeroed() of a zero-sized T as a memset on a zero-sized object and flags the destination; no byte is written")]
     spec = KaniSpec(
-        injections={BENCH: hook + KANI}, harnesses=hs, patches=[PATCH],
+        injections={BENCH: hook + KANI.replace("@WATCH@", {"C01": "1", "C02": "2", "C08": "4"}[tag])}, harnesses=hs, patches=[PATCH],
         stubs_note=[
             "scratch-copy patch: bench_loop_threaded records self.thread_count and returns (cfg(kani)); used by the entry_* harnesses only; the loop itself is C03/C04/C19",
             "the pool is not used: the harness takes the sample of thread 0, then of thread 1, on the one Kani thread; no real concurrency is explored; the round fragment of the loop (per-input counter closure, RawSample assembly) is not covered",
             "TscTimestamp::start/end -> virtual counter that logs the read; time::fence::full_fence/compiler_fence -> loggers (inline asm is outside Kani)",
-            "std::sync::Barrier::wait -> logger that returns at once; std::hash::RandomState::new -> zero keys",
+            "std::sync::Barrier::wait -> logger that returns at once; ThreadAllocInfo::clear -> logger + the same reset; std::hash::RandomState::new -> zero keys",
+            "only the assertions of the property being checked are evaluated (Kani's assert! also assumes: one property's failure would mask another's)",
         ], timeout_s=1500)
     spec.tag = tag
     # the harnesses depend on kani::stub (clock, fences, Barrier::wait): a native playback build has none of them,
